@@ -166,7 +166,7 @@ theorem label_facts (name gap : List Nat) (hn : IsLabel name) (hgap : ExprText.I
     obtain ⟨e, pr, hw, hsk, hA, hr⟩ := key S B c s hs hg
     exact ⟨e, pr, hw.2.mono (by omega), hsk.mono (by omega), hA⟩
 
-/-! ### reserved prefixes -/
+/-! ### reserved names -/
 
 theorem prefix_app_stop : ∀ (pat n rest : List Nat), (∀ c ∈ pat, isLb c = true) → pat ≠ [] →
     headIs isLb rest = false → pat.isPrefixOf n = false → pat.isPrefixOf (n ++ rest) = false
@@ -196,12 +196,48 @@ theorem not_prefix_append {a b l : List Nat} (h : a.isPrefixOf l = false) : (a +
     rw [← List.isPrefixOf_iff_prefix] at this
     rw [this] at h; cases h
 
-theorem reserved_facts {n : List Nat} (h : reservedPrefix n = false) :
-    List.isPrefixOf [109, 97, 99, 114, 111] n = false ∧ List.isPrefixOf [100, 101, 102] n = false ∧
-    List.isPrefixOf [112, 117, 115, 104] n = false ∧ List.isPrefixOf [105, 109, 112, 111, 114, 116] n = false ∧
-    List.isPrefixOf [105, 110, 99, 108, 117, 100, 101] n = false ∧ List.isPrefixOf [101, 110, 100] n = false := by
-  simp only [reservedPrefix, List.any_cons, List.any_nil, Bool.or_false, Bool.or_eq_false_iff] at h
-  exact ⟨h.1, h.2.1, h.2.2.1, h.2.2.2.1, h.2.2.2.2.1, h.2.2.2.2.2⟩
+theorem reserved_facts {n : List Nat} (h : reservedName n = false) :
+    n ≠ [112, 117, 115, 104] ∧ n ≠ [105, 109, 112, 111, 114, 116] ∧ n ≠ [105, 110, 99, 108, 117, 100, 101] ∧
+    n ≠ [105, 110, 99, 108, 117, 100, 101, 95, 104, 101, 120] ∧
+    List.isPrefixOf [109, 97, 99, 114, 111] n = false ∧ List.isPrefixOf [100, 101, 102] n = false := by
+  simp only [reservedName, Bool.or_eq_false_iff, beq_eq_false_iff_ne] at h
+  exact ⟨h.1.1.1.1.1, h.1.1.1.1.2, h.1.1.1.2, h.1.1.2, h.1.2, h.2⟩
+
+theorem isLb_of_isFn {c : Nat} (h : isFn c = true) : isLb c = true := by
+  simp only [isFn, isAl, isLb, isAn, Bool.or_eq_true, Bool.and_eq_true, decide_eq_true_eq, beq_iff_eq] at h ⊢
+  omega
+
+theorem isLb_facts {c : Nat} (h : isLb c = true) : NonBlank c ∧ c ≠ 40 := by
+  simp only [isLb, isAn, Bool.or_eq_true, Bool.and_eq_true, decide_eq_true_eq, beq_iff_eq] at h
+  refine ⟨⟨?_, ?_, ?_⟩, ?_⟩ <;> omega
+
+/-- a builtin word followed by `arguments` fails on a name that is not exactly the word: either the literal does not
+match, or it does, the implicit skip eats nothing (the name goes on), and `arguments` fails on a name character -/
+theorem word_fail {pat name rest : List Nat} {S : Nat} {la : Bool}
+    (hpat : ∀ c ∈ pat, isLb c = true) (hne : pat ≠ []) (hname : ∀ c ∈ name, isLb c = true)
+    (hstop : headIs isLb rest = false) (hneq : name ≠ pat) (hs : Suf text S (name ++ rest)) :
+    Ev (envOf text) 40 (.seq (.str pat) (.ref 20)) .nonAtomic la S none := by
+  cases hp : pat.isPrefixOf name with
+  | false =>
+    exact (Ev.seq_fail1 (ev_str_fail hs (prefix_app_stop pat name rest hpat hne hstop hp)) (d := 1)).mono (by omega)
+  | true =>
+    rw [List.isPrefixOf_iff_prefix] at hp
+    obtain ⟨t, rfl⟩ := hp
+    cases t with
+    | nil => exact absurd (List.append_nil pat) hneq
+    | cons c tl =>
+      obtain ⟨hnb, h40⟩ := isLb_facts (hname c (by simp))
+      have hs' : Suf text S (pat ++ (c :: (tl ++ rest))) := by
+        simpa only [List.append_assoc, List.cons_append] using hs
+      have h1 : Ev (envOf text) 1 (.str pat) .nonAtomic la S (some (S + pat.length, [])) := ev_str_ok hs'
+      have hs2 : Suf text (S + pat.length) (c :: (tl ++ rest)) := hs'.app
+      have hsk : Sk (envOf text) 30 .nonAtomic (S + pat.length) (S + pat.length) := skip_none hs2 hnb
+      have f40 : Ev (envOf text) 1 (.str [40]) .nonAtomic la (S + pat.length) none :=
+        ev_str_fail hs2 (by have : (40 : Nat) ≠ c := fun h => h40 h.symm
+                            simp [List.isPrefixOf, this])
+      have f20 : Ev (envOf text) 5 (.ref 20) .nonAtomic la (S + pat.length) none :=
+        evr (gr20 text) (by omega) (Ev.seq_fail1 (Ev.seq_fail1 f40 (d := 1)) (d := 2)) (d := 3)
+      exact (Ev.seq_fail2 h1 hsk f20 (d := 30)).mono (by omega)
 
 /-! ### macro invocations `%name gap ( args )` -/
 
@@ -232,10 +268,20 @@ theorem invoke_facts (name gap : List Nat) (args : XArgs) (hwf : (BStmt.invoke n
       cases gap with
       | nil => rfl
       | cons g0 gs => rcases hgap g0 (by simp) with h | h <;> subst h <;> rfl
-    obtain ⟨rmac, rdef, rpush, rimp, rinc, rend⟩ := reserved_facts hres
+    obtain ⟨rpush, rimp, rinc, rinch, rmac, _⟩ := reserved_facts hres
     have pf : ∀ pat : List Nat, (∀ c ∈ pat, isLb c = true) → pat ≠ [] → pat.isPrefixOf name = false →
         pat.isPrefixOf (name ++ (gap ++ 40 :: (args.render ++ 41 :: X))) = false :=
       fun pat h1 h2 h3 => prefix_app_stop pat name _ h1 h2 hstop h3
+    have hname : ∀ c ∈ name, isLb c = true := by
+      intro c hc
+      rw [hnc] at hc
+      rcases List.mem_cons.mp hc with rfl | hc
+      · exact isLb_of_isFn hc0
+      · exact hrun c hc
+    -- a builtin word fails on the name: the name is not exactly the word
+    have wf : ∀ (pat : List Nat) (la : Bool), (∀ c ∈ pat, isLb c = true) → pat ≠ [] → name ≠ pat →
+        Ev (envOf text) 40 (.seq (.str pat) (.ref 20)) .nonAtomic la (S + 1) none :=
+      fun pat la h1 h2 h3 => word_fail h1 h2 hname hstop h3 hs1
     -- `label_definition` fails on `%`
     have hw := top_win
     simp only [Bool.and_eq_true] at hw
@@ -244,22 +290,20 @@ theorem invoke_facts (name gap : List Nat) (args : XArgs) (hwf : (BStmt.invoke n
     have f40 : Ev (envOf text) 30 (.ref 40) .nonAtomic false S none := by
       simpa using Ev.of_window hA0 (resFail_eq hw.1.1)
     -- `builtin` fails, whatever the look-ahead flag
-    have f15 : ∀ la, Ev (envOf text) 12 (.ref 15) .nonAtomic la S none := by
+    have f15 : ∀ la, Ev (envOf text) 50 (.ref 15) .nonAtomic la S none := by
       intro la
       have h37 : Ev (envOf text) 1 (.str [37]) .compound la S (some (S + 1, [])) :=
         ev_str_ok (pat := [37]) (s := name ++ (gap ++ 40 :: (args.render ++ 41 :: X))) hs0
-      have f16 : Ev (envOf text) 4 (.ref 16) .compound la (S + 1) none :=
-        evr (gr16 text) (by omega) (Ev.seq_fail1 (ev_str_fail hs1 (pf _ (by decide) (by simp) rimp)) (d := 1))
-      have f17 : Ev (envOf text) 4 (.ref 17) .compound la (S + 1) none :=
-        evr (gr17 text) (by omega) (Ev.seq_fail1 (ev_str_fail hs1 (pf _ (by decide) (by simp) rinc)) (d := 1))
-      have f18 : Ev (envOf text) 4 (.ref 18) .compound la (S + 1) none :=
-        evr (gr18 text) (by omega) (Ev.seq_fail1 (ev_str_fail hs1
-          (not_prefix_append (b := [95, 104, 101, 120]) (pf [105, 110, 99, 108, 117, 100, 101] (by decide) (by simp) rinc)))
-          (d := 1))
-      have f19 : Ev (envOf text) 4 (.ref 19) .compound la (S + 1) none :=
-        evr (gr19 text) (by omega) (Ev.seq_fail1 (ev_str_fail hs1 (pf _ (by decide) (by simp) rpush)) (d := 1))
+      have f16 : Ev (envOf text) 42 (.ref 16) .compound la (S + 1) none :=
+        evr (gr16 text) (by omega) (wf _ la (by decide) (by simp) rimp) (d := 40)
+      have f17 : Ev (envOf text) 42 (.ref 17) .compound la (S + 1) none :=
+        evr (gr17 text) (by omega) (wf _ la (by decide) (by simp) rinc) (d := 40)
+      have f18 : Ev (envOf text) 42 (.ref 18) .compound la (S + 1) none :=
+        evr (gr18 text) (by omega) (wf _ la (by decide) (by simp) rinch) (d := 40)
+      have f19 : Ev (envOf text) 42 (.ref 19) .compound la (S + 1) none :=
+        evr (gr19 text) (by omega) (wf _ la (by decide) (by simp) rpush) (d := 40)
       exact (evr (gr15 text) (by omega) (Ev.seq_fail2 h37 (sk_comp _)
-        (Ev.alt_r (Ev.alt_r (Ev.alt_r f16 f17 (d := 4)) f18 (d := 5)) f19 (d := 6)) (d := 7)) (d := 8)
+        (Ev.alt_r (Ev.alt_r (Ev.alt_r f16 f17 (d := 42)) f18 (d := 43)) f19 (d := 44)) (d := 45)) (d := 46)
         (at_ := .nonAtomic)).mono (by omega)
     have hnb0 : NonBlank c0 := by
       simp only [isFn, isAl, Bool.or_eq_true, Bool.and_eq_true, decide_eq_true_eq, beq_iff_eq] at hc0
@@ -268,9 +312,9 @@ theorem invoke_facts (name gap : List Nat) (args : XArgs) (hwf : (BStmt.invoke n
     have h37n : Ev (envOf text) 1 (.str [37]) .nonAtomic false S (some (S + 1, [])) :=
       ev_str_ok (pat := [37]) (s := name ++ (gap ++ 40 :: (args.render ++ 41 :: X))) hs0
     -- `"%" ~ push_macro` fails on the name
-    have f19' : Ev (envOf text) 4 (.ref 19) .nonAtomic false (S + 1) none :=
-      evr (gr19 text) (by omega) (Ev.seq_fail1 (ev_str_fail hs1 (pf _ (by decide) (by simp) rpush)) (d := 1))
-    have fp19 : Ev (envOf text) 31 pct19 .nonAtomic false S none := Ev.seq_fail2 h37n hsk1 f19' (d := 30)
+    have f19' : Ev (envOf text) 42 (.ref 19) .nonAtomic false (S + 1) none :=
+      evr (gr19 text) (by omega) (wf _ false (by decide) (by simp) rpush) (d := 40)
+    have fp19 : Ev (envOf text) 43 pct19 .nonAtomic false S none := Ev.seq_fail2 h37n hsk1 f19' (d := 42)
     -- `instruction_macro_definition` fails on the literal
     have f10 : Ev (envOf text) 7 (.ref 10) .nonAtomic false S none :=
       evr (sgr10 text) (by omega) (Ev.seq_fail1 (Ev.seq_fail1 (Ev.seq_fail1 (Ev.seq_fail1 (ev_str_fail hs0 (by
@@ -286,7 +330,7 @@ theorem invoke_facts (name gap : List Nat) (args : XArgs) (hwf : (BStmt.invoke n
       evr (sgr13 text) (by omega) (Ev.seq h37n hsk1 h31 (d := 12 * (text.length - (S + 1)) + 187))
         (d := 12 * (text.length - (S + 1)) + 188)
     -- `local_macro`
-    have hneg : Ev (envOf text) 13 (.neg (.ref 15)) .nonAtomic false S (some (S, [])) := sev_neg (f15 true) (d := 12)
+    have hneg : Ev (envOf text) 51 (.neg (.ref 15)) .nonAtomic false S (some (S, [])) := sev_neg (f15 true) (d := 50)
     have hsk0 : Sk (envOf text) 30 .nonAtomic S S := skip_none hs0 (by simp [NonBlank])
     have halts : Ev (envOf text) (12 * (text.length - (S + 1)) + 192) lmAlts .nonAtomic false S
         (some (E, [.mk 13 S E K])) :=
